@@ -152,6 +152,8 @@ class C16(F.Spec):
                 kind = rng.choice(["pingresp", "puback", "suback", "connack", "pubrel", "pubrec", "pubcomp", "unsuback", "reserved",
                                    "badflags", "badlen", "pinglen", "longrem"])
                 tags.add(kind)
+                if kind not in ("pingresp", "connack"):
+                    tags.add("BAD")
                 stream += {"pingresp": PINGRESP, "puback": bytes([0x40, 2, 0, 9]), "suback": suback(rng.randint(1, 9)),
                            "connack": CONNACK, "pubrel": bytes([0x62, 2, 0, 9]), "pubrec": bytes([0x50, 2, 0, 9]),
                            "pubcomp": bytes([0x70, 2, 0, 9]), "unsuback": bytes([0xb0, 2, 0, 9]),
@@ -171,7 +173,7 @@ class C16(F.Spec):
             if rng.random() < .3:
                 ops.append("adv %d" % rng.choice([10, 60, 120]))
         ops += ["adv 200"]
-        return F.Case("mixed%d-%s" % (i, style), ops, {"tags": ["stream:mixed", "seg:" + style] + sorted("p:" + t for t in tags), "kind": "mixed", "noshrink": True,
+        return F.Case("mixed%d-%s" % (i, style), ops, {"tags": ["stream:mixed", "seg:" + style] + sorted("p:" + t for t in tags), "kind": "mixed", "noshrink": True, "has_bad": "BAD" in tags,
                                                        "pubs": [(q, tt.hex(), p.hex(), pid) for q, tt, p, pid in pubs]})
 
     def gen_big(self, rng, i):
@@ -351,6 +353,14 @@ class C16(F.Spec):
                                         % ((gq[0], gq[1][-12:], gq[2][:8]),)))
                     break
                 j += 1
+        if case.meta.get("kind") == "mixed" and case.meta.get("has_bad"):
+            # the stream contains a malformed packet or an acknowledgement of something never sent (and it is delivered whole, every
+            # segment is accepted): the connection ends in a protocol error
+            ce = [x for g in raw for x in g if x.startswith("CLIENTERR ")]
+            if ce and all(x == "CLIENTERR 1" for x in ce) and not any(x.startswith("DISCONNECT") for g in raw[2:] for x in g):
+                fs.append(F.Finding("malformed-packet-no-error", "the broker's stream contains %s, yet the client reports no protocol error"
+                                    % [t for t in case.meta.get("tags", []) if t.startswith("p:") and t[2:] in
+                                       ("puback", "suback", "pubrel", "pubrec", "pubcomp", "unsuback", "reserved", "badflags", "badlen", "pinglen", "longrem")]))
         if case.meta.get("kind") == "big":
             got = []
             second = [k for k, o in enumerate(case.ops) if o == "connected"][1:]
@@ -411,6 +421,12 @@ class C16(F.Spec):
         for op, g in zip(case.ops, raw):
             if op.startswith("unpack "):
                 b = bytes.fromhex(op.split()[1]) if op.split()[1] != "-" else b""
+                if len(b) >= 5 and all(v & 0x80 for v in b[1:5]):
+                    # impossible length: the remaining-length field has at most four bytes (MQTT 3.1.1, 2.2.3)
+                    for x in g:
+                        if x.startswith("UNPACK ") and int(x.split()[1]) >= 0:
+                            fs.append(F.Finding("five-byte-remaining-length-accepted", "a fixed header whose remaining-length field continues "
+                                                "beyond four bytes (%s) is not rejected: %s" % (b[:6].hex(), x)))
                 for x in g:
                     if " PUBLISH " in x:
                         p = dict(kv.split("=") for kv in x.split()[3:])
@@ -449,11 +465,280 @@ class C16(F.Spec):
                 j = k + ln
         return out
 
+    ACK_FOR = {9: "sub", 4: "pub1", 5: "pub2"}      # SUBACK / PUBACK / PUBREC answer these outstanding requests
+    NAMES = {4: "PUBACK", 5: "PUBREC", 6: "PUBREL", 7: "PUBCOMP", 9: "SUBACK", 11: "UNSUBACK", 3: "PUBLISH"}
+
+    def outstanding(self, lines):
+        out = {}
+        for ty, fl, pid in self.sent_packets(lines):
+            if pid is None:
+                continue
+            if ty == 8:
+                out[pid] = "sub"
+            elif ty == 3 and (fl >> 1) & 3 == 1:
+                out[pid] = "pub1"
+            elif ty == 3 and (fl >> 1) & 3 == 2:
+                out[pid] = "pub2"
+        return out
+
+    def judge_last(self, exe, ops):
+        """the last op is one packet from the broker, the ops before it leave the client with requests outstanding: an
+        acknowledgement is accepted iff it is well formed and answers an outstanding request of its own kind; a QoS 1/2
+        PUBLISH is delivered and acknowledged whatever its packet id collides with"""
+        rc0, base_lines, err0 = C.run_lines([exe], "\n".join(ops[:-1]) + "\n")
+        rc, lines, err = C.run_lines([exe], "\n".join(ops) + "\n")
+        if rc != 0 or rc0 != 0:
+            return [F.Finding("crash", "rc=%s %s" % (rc, (err or err0)[-600:]))], None
+        pend = self.outstanding(base_lines)
+        pkt = bytes.fromhex(ops[-1].split()[1])
+        ty, fl = pkt[0] >> 4, pkt[0] & 15
+        new = lines[len(base_lines):] if lines[:len(base_lines)] == base_lines else lines
+        ce = [x for x in lines if x.startswith("CLIENTERR ")]
+        ok = bool(ce) and ce[-1] == "CLIENTERR 1"
+        fs = []
+        if ty == 3:
+            qos = (fl >> 1) & 3
+            tl = struct.unpack(">H", pkt[2:4])[0]
+            topic, pid, payload = pkt[4:4 + tl], struct.unpack(">H", pkt[4 + tl:6 + tl])[0], pkt[6 + tl:]
+            got = [x.split() for x in new if x.startswith("PUB ")]
+            got = [(p[4] if p[4] != "-" else "", p[5] if p[5] != "-" else "") for p in got]
+            acks = []
+            for x in new:
+                if x.startswith("SENT 0 "):
+                    b = bytes.fromhex(x.split()[2])
+                    j = 0
+                    while j + 1 < len(b):
+                        ln = b[j + 1]
+                        if b[j] in (0x40, 0x50) and ln == 2:
+                            acks.append((b[j] >> 4, struct.unpack(">H", b[j + 2:j + 4])[0]))
+                        j += 2 + ln if ln < 128 else len(b)
+            if got != [(topic.hex(), payload.hex())] or not ok:
+                fs.append(F.Finding("publish-with-colliding-id-lost", "a well-formed QoS %d PUBLISH whose packet id %d equals the id of the "
+                                    "client's own outstanding %s is not delivered exactly once (callbacks %s, %s)"
+                                    % (qos, pid, pend.get(pid), got, ce[-1:])))
+            elif (4 if qos == 1 else 5, pid) not in acks:
+                fs.append(F.Finding("publish-with-colliding-id-not-acknowledged", "QoS %d PUBLISH with id %d: acknowledgements sent %s" % (qos, pid, acks)))
+            return fs, ("PUBLISH", pend.get(pid), ok)
+        pid = struct.unpack(">H", pkt[2:4])[0]
+        wellformed = fl == (2 if ty == 6 else 0)
+        # (MQTT-C accepts PUBACK and PUBREC for an outstanding PUBLISH of either QoS: an acknowledgement of the wrong QoS flow, but
+        # of something that was sent - the property only excludes acknowledgements of what was never sent)
+        kind_of = {"sub": "sub", "pub1": "pub", "pub2": "pub"}
+        answers = pend.get(pid) is not None and {9: "sub", 4: "pub", 5: "pub"}.get(ty) == kind_of[pend[pid]]
+        name = self.NAMES.get(ty, "type %d" % ty)
+        if ok and not wellformed:
+            fs.append(F.Finding("wrong-flags-accepted", "a %s for an outstanding request with reserved flag bits %d set is "
+                                "accepted without a protocol error" % (name, fl)))
+        elif ok and not answers:
+            fs.append(F.Finding("ack-of-unknown-accepted", "a %s with packet id %d is accepted without a protocol error although the "
+                                "client has no request of that kind outstanding under this id (outstanding: %s)" % (name, pid, pend)))
+        elif not ok and wellformed and answers:
+            fs.append(F.Finding("valid-ack-rejected", "a well-formed %s for an outstanding request ends in %s" % (name, ce[-1:])))
+        return fs, (name, wellformed, answers, ok)
+
+    # ---- acknowledgements and inbound QoS 1/2 flows as histories (Model/MqttAck)
+    PKT = {"puback": 0x40, "pubrec": 0x50, "pubrel": 0x62, "pubcomp": 0x70}
+
+    def flow_bytes(self, pk, k):
+        if pk[0] == "publish":
+            return publish(b"t/x", b"m%d" % k, pk[1], pk[2])
+        if pk[0] == "suback":
+            return bytes([0x90, 3]) + struct.pack(">H", pk[1]) + b"\0"
+        return bytes([self.PKT[pk[0]], 2]) + struct.pack(">H", pk[1])
+
+    def gen_flow(self, rng, pend):
+        """broker packets after the CONNACK: QoS 0/1/2 publishes with few packet ids (so that ids are used again after their flow was
+        released), retransmissions while a flow is open, PUBREL of open flows, acknowledgements of the client's own outstanding
+        requests (each once, in protocol order). Nothing whose outcome depends on when complete queue entries are dropped."""
+        ids = rng.choice([[7], [1, 2], [1, 2, 7]])
+        open_, closed, seq = set(), set(), []
+        own = dict(pend)
+        rel = set()        # own QoS 2 publishes whose PUBREC was sent: PUBCOMP may follow
+        for _ in range(rng.randint(3, 12)):
+            r = rng.random()
+            if r < .45:
+                seq.append(("publish", 2, rng.choice(ids)))
+                open_.add(seq[-1][2])
+            elif r < .55:
+                seq.append(("publish", 1, rng.choice(ids)))
+            elif r < .6:
+                seq.append(("publish", 0, 0))
+            elif r < .85 and open_:
+                pid = rng.choice(sorted(open_))
+                seq.append(("pubrel", pid))
+                open_.discard(pid)
+                closed.add(pid)
+            elif r < .95 and (own or rel):
+                if rel and rng.random() < .5:
+                    pid = rel.pop()
+                    seq.append(("pubcomp", pid))
+                else:
+                    pid = rng.choice(sorted(own)) if own else None
+                    if pid is None:
+                        continue
+                    what = own.pop(pid)
+                    if what == "sub":
+                        seq.append(("suback", pid))
+                    elif what == "pub1":
+                        seq.append(("puback", pid))
+                    else:
+                        seq.append(("pubrec", pid))
+                        rel.add(pid)
+            elif r >= .97:
+                cand = [p for p in (3, 9) if p not in open_ and p not in closed]
+                if cand:
+                    seq.append(("pubrel", cand[0]))     # a flow that was never opened: acknowledgement of something never sent
+        return seq
+
+    def run_flow(self, exe, qos, seq):
+        """-> (ops, per-packet observations [(err, [(qos, payload)], )], acks sent, model ops); stops behind the first client error"""
+        base = ["cfg qos %d" % qos, "start", "connected", "seg " + CONNACK.hex(), "adv 300"]
+        ops = list(base)
+        for k, pk in enumerate(seq):
+            ops += ["seg " + self.flow_bytes(pk, k).hex(), "adv 100"]
+        rc, lines, err = C.run_lines([exe], "\n".join(ops) + "\n")
+        if rc != 0:
+            return ops, None, None, None, err
+        groups = C.split_by_op(lines)[0]
+        mops, obs, acks, seen = ["reset"], [], [], set()
+
+        def sent(g):
+            n = 0
+            for x in g:
+                if not x.startswith("SENT 0 "):
+                    continue
+                n += 1
+                b = bytes.fromhex(x.split()[2])
+                j = 0
+                while j + 1 < len(b):
+                    ln, k2, mul = 0, j + 1, 1
+                    while k2 < len(b):
+                        ln += (b[k2] & 127) * mul
+                        mul *= 128
+                        k2 += 1
+                        if not b[k2 - 1] & 128:
+                            break
+                    ty, fl = b[j] >> 4, b[j] & 15
+                    if ty in (4, 5, 6, 7) and ln == 2:
+                        acks.append((ty, struct.unpack(">H", b[k2:k2 + 2])[0]))
+                    elif ty in (8, 10) and ln >= 2:
+                        pid = struct.unpack(">H", b[k2:k2 + 2])[0]
+                        if (ty, pid) not in seen:
+                            seen.add((ty, pid)); mops.append("own %d %d" % (ty, pid))
+                    elif ty == 3 and (fl >> 1) & 3 and ln >= 4:
+                        tl = struct.unpack(">H", b[k2:k2 + 2])[0]
+                        pid = struct.unpack(">H", b[k2 + 2 + tl:k2 + 4 + tl])[0]
+                        if (3, pid) not in seen:
+                            seen.add((3, pid)); mops.append("own 3 %d" % pid)
+                    j = k2 + ln
+            if n:
+                mops.append("flush")
+
+        for g in groups[:len(base)]:
+            sent(g)
+        acks.clear()
+        dead = False
+        for k, pk in enumerate(seq):
+            g1 = groups[len(base) + 2 * k] if len(base) + 2 * k < len(groups) else []
+            g2 = groups[len(base) + 2 * k + 1] if len(base) + 2 * k + 1 < len(groups) else []
+            ce = [x for x in g1 if x.startswith("CLIENTERR ")]
+            e = bool(ce) and ce[-1] != "CLIENTERR 1"
+            pubs = [(int(x.split()[2]), x.split()[5] if x.split()[5] != "-" else "") for x in g1 if x.startswith("PUB ")]
+            mops.append("pkt %s %d %d" % (pk[0], pk[1], pk[2] if len(pk) > 2 else 0))
+            obs.append((e, pubs))
+            if e:
+                dead = True
+                break
+            sent(g1); sent(g2)
+        return ops, obs, list(acks), mops, None
+
+    def flows_family(self, tier, rng):
+        """histories of broker packets against the real client, the Lean model (Model/MqttAck) and the flow specification"""
+        exe = self.driver_build()
+        n = 40 if tier == "quick" else 400
+        ev, nt, tie, out = 0, set(), [], []
+        for i in range(n):
+            qos = rng.choice([0, 1, 1, 2, 2])
+            rc, lines, err = C.run_lines([exe], "\n".join(["cfg qos %d" % qos, "start", "connected", "seg " + CONNACK.hex(), "adv 300"]) + "\n")
+            if rc != 0:
+                out.append((F.Finding("crash", "rc=%s %s" % (rc, err[-600:])), []))
+                break
+            seq = self.gen_flow(rng, self.outstanding(lines))
+            if i == 0:
+                seq = [("publish", 2, 7), ("pubrel", 7), ("publish", 2, 7), ("pubrel", 7)]     # the id of a released flow used again
+            fs, t, key = self.judge_flow(exe, qos, seq)
+            ev += 1
+            nt.add(key)
+            tie += t
+            if fs:
+                out += fs
+                break
+        return ev, len(nt), tie, out
+
+    def judge_flow(self, exe, qos, seq):
+        ops, obs, acks, mops, err = self.run_flow(exe, qos, seq)
+        if obs is None:
+            return [(F.Finding("crash", "implementation aborted: %s" % (err or "")[-600:]), ops)], [], ("crash",)
+        fs, tie = [], []
+        # the flow specification (reference): open inbound QoS 2 flows
+        open_, want, wacks = set(), [], []
+        for k, (pk, (e, pubs)) in enumerate(zip(seq, obs)):
+            exp = []
+            if pk[0] == "publish":
+                if pk[1] == 2:
+                    if pk[2] not in open_:
+                        exp = [(2, (b"m%d" % k).hex())]
+                        wacks.append((5, pk[2]))
+                        open_.add(pk[2])
+                else:
+                    exp = [(pk[1], (b"m%d" % k).hex())]
+                    if pk[1] == 1:
+                        wacks.append((4, pk[2]))
+                if e:
+                    fs.append((F.Finding("valid-publish-rejected", "history %s: the PUBLISH at position %d ends in a client error" % (seq, k)), ops))
+                    break
+            elif pk[0] == "pubrel" and pk[1] in open_:
+                open_.discard(pk[1])
+                wacks.append((7, pk[1]))
+            elif pk[0] == "pubrec":
+                wacks.append((6, pk[1]))
+            if pubs != exp:
+                cls = "qos2-flow-delivery" if pk[0] == "publish" and pk[1] == 2 else "publish-delivery"
+                fs.append((F.Finding(cls, "history %s: packet %d (%s) should hand over %s (a QoS 2 PUBLISH is handed over unless a flow with its "
+                                     "packet id is open; PUBREL closes the flow), the client handed over %s" % (seq[:k + 1], k, pk, exp, pubs)), ops))
+                break
+        if not fs and not any(e for e, _ in obs) and sorted(acks) != sorted(wacks):
+            fs.append((F.Finding("flow-acknowledgements", "history %s: acknowledgements expected %s, sent %s" % (seq, wacks, acks)), ops))
+        # the Lean model on the same history
+        mrc, mlines, merr = C.run_lines([C.svdrv(), "mqttack"], "\n".join(mops) + "\n")
+        mg = [g for o, g in zip(mops, C.split_by_op(mlines)[0]) if o.startswith("pkt ")]
+        staged = []
+        for k, ((e, pubs), g) in enumerate(zip(obs, mg)):
+            m = dict(kv.split("=") for kv in g[0].split()[1:]) if g else {}
+            if not m or int(m["err"]) != int(e) or int(m["deliv"]) != len(pubs):
+                tie.append("history %s, packet %d (%s): implementation err=%d callbacks=%d, model %s" % (seq, k, seq[k], e, len(pubs), g))
+                break
+            if m["staged"] != "-":
+                staged.append(tuple(int(v) for v in m["staged"].split(":")))
+        if not tie and not any(e for e, _ in obs) and sorted(staged) != sorted(acks):
+            tie.append("history %s: acknowledgements sent %s, staged by the model %s" % (seq, acks, staged))
+        key = (qos, tuple(sorted(set((pk[0], pk[1] if pk[0] == "publish" else 0) for pk in seq))), any(e for e, _ in obs))
+        return fs, tie, key
+
     def extra_findings(self, tier, rng):
-        """acknowledgements of requests the client really has outstanding (its SUBSCRIBE, its QoS 1/2 state publishes), once well
-        formed (no error) and once with a reserved flag bit set: wrong flags are a protocol error whatever the packet answers"""
+        """acknowledgements of requests the client really has outstanding (its SUBSCRIBE, its QoS 1/2 state publishes): well
+        formed (no error), with a reserved flag bit set (protocol error), of the wrong kind for that packet id (acknowledgement
+        of something never sent: protocol error); and QoS 1/2 publishes from the broker that reuse such an id (delivered)"""
         exe = self.driver_build()
         out, ev, nt = [], 0, set()
+        fl = getattr(self, "_flows", None)
+        if fl is None:
+            fl = self.flows_family(tier, C.Rng(C.seed() * 31 + 5))
+        ev += fl[0]
+        nt |= set(("flow", k) for k in range(fl[1]))
+        out += fl[3]
+        if out:
+            return ev, len(nt), out
         for i in range(6 if tier == "quick" else 40):
             qos = rng.choice([1, 1, 2, 0])
             base = ["cfg qos %d" % qos, "start", "connected", "seg " + CONNACK.hex(), "adv 300"]
@@ -462,49 +747,67 @@ class C16(F.Spec):
             if rc != 0:
                 out.append((F.Finding("crash", "rc=%s %s" % (rc, err[-600:])), base))
                 break
-            pk = [p for p in self.sent_packets(lines) if p[2] is not None]
-            cands = []
-            for ty, fl, pid in pk:
-                if ty == 8:
-                    cands.append((0x90, bytes([3]) + struct.pack(">H", pid) + b"\0", "SUBACK"))
-                elif ty == 3 and (fl >> 1) & 3 == 1:
-                    cands.append((0x40, bytes([2]) + struct.pack(">H", pid), "PUBACK"))
-                elif ty == 3 and (fl >> 1) & 3 == 2:
-                    cands.append((0x50, bytes([2]) + struct.pack(">H", pid), "PUBREC"))
-            if not cands:
+            pend = self.outstanding(lines)
+            if not pend:
                 continue
-            first, body, name = rng.choice(cands)
-            for bad in (0, rng.choice([1, 2, 4, 8])):
-                ops = base + ["seg " + (bytes([first | bad]) + body).hex()]
-                rc, lines, err = C.run_lines([exe], "\n".join(ops) + "\n")
+            right = {"sub": 9, "pub1": 4, "pub2": 5}
+            trials = []
+            pid, what = rng.choice(sorted(pend.items()))
+            def ack(ty, fl, pid):
+                return bytes([ty << 4 | fl]) + (bytes([3]) + struct.pack(">H", pid) + b"\0" if ty == 9 else bytes([2]) + struct.pack(">H", pid))
+            trials.append(ack(right[what], 0, pid))
+            trials.append(ack(right[what], rng.choice([1, 2, 4, 8]), pid))
+            for pid2, what2 in sorted(pend.items()):
+                wrong = [t for t in (4, 5, 6, 7, 9, 11) if t != right[what2] and not (what2 != "sub" and t in (4, 5))]
+                for ty in (wrong if tier != "quick" else rng.sample(wrong, min(3, len(wrong)))):
+                    trials.append(ack(ty, 2 if ty == 6 else 0, pid2))
+                for q in (1, 2):
+                    trials.append(publish(b"t/x", b"xyz", q, pid2))
+            trials.append(ack(rng.choice([4, 5, 7, 9, 11]), 0, rng.choice([p for p in range(1, 200) if p not in pend])))
+            for pkt in trials:
+                ops = base + ["seg " + pkt.hex()]
+                fs, key = self.judge_last(exe, ops)
                 ev += 1
-                if rc != 0:
-                    out.append((F.Finding("crash", "rc=%s %s" % (rc, err[-600:])), ops))
+                nt.add(key)
+                for f in fs:
+                    out.append((f, ops))
+                if out:
                     break
-                ce = [x for x in lines if x.startswith("CLIENTERR ")]
-                ok = bool(ce) and ce[-1] == "CLIENTERR 1"
-                nt.add((name, bad != 0, ok))
-                if bad and ok:
-                    out.append((F.Finding("wrong-flags-accepted", "a %s for an outstanding request with reserved flag bits %d set is "
-                                          "accepted without a protocol error" % (name, bad)), ops))
-                if not bad and not ok:
-                    out.append((F.Finding("valid-ack-rejected", "a well-formed %s for an outstanding request ends in %s" % (name, ce[-1:])), ops))
             if out:
                 break
         return ev, len(nt), out
 
+    def extra_static(self, tier):
+        """the acknowledgement / QoS flow bookkeeping of the real client equals Model/MqttAck on every history run"""
+        try:
+            self._flows = self.flows_family(tier, C.Rng(C.seed() * 31 + 5))
+        except C.BuildError as e:
+            self._flows = (0, 0, [], [])
+            return [("flow bookkeeping: __mqtt_recv = Model/MqttAck", False, "driver does not build: " + str(e)[-600:])]
+        t = self._flows[2]
+        return [("flow bookkeeping: __mqtt_recv = Model/MqttAck (%d histories)" % self._flows[0], not t, t[0] if t else "")]
+
     def extra_replay(self, ops):
-        if not any(o.startswith("cfg qos") for o in ops):
+        segs = [o for o in ops if o.startswith("seg ")]
+        if any(o.startswith("cfg qos") for o in ops) and len(segs) > 2:
+            # a flow history: decode the broker packets back from the segments
+            seq = []
+            for o in segs[1:]:
+                b = bytes.fromhex(o.split()[1])
+                ty = b[0] >> 4
+                if ty == 3:
+                    q = (b[0] >> 1) & 3
+                    tl = struct.unpack(">H", b[2:4])[0]
+                    seq.append(("publish", q, struct.unpack(">H", b[4 + tl:6 + tl])[0] if q else 0))
+                else:
+                    seq.append(({4: "puback", 5: "pubrec", 6: "pubrel", 7: "pubcomp", 9: "suback"}[ty], struct.unpack(">H", b[2:4])[0]))
+            qos = int(next(o for o in ops if o.startswith("cfg qos")).split()[2])
+            fs, t, _ = self.judge_flow(self.driver_build(), qos, seq)
+            return [f for f, _ in fs]
+        if not any(o.startswith("cfg qos") for o in ops) or not ops[-1].startswith("seg "):
             return []
-        rc, lines, err = C.run_lines([self.driver_build()], "\n".join(ops) + "\n")
-        if rc != 0:
-            return [F.Finding("crash", "rc=%s %s" % (rc, err[-600:]))]
-        ce = [x for x in lines if x.startswith("CLIENTERR ")]
-        last = bytes.fromhex(ops[-1].split()[1])
-        bad = last[0] & 15 and (last[0] >> 4) in (4, 5, 9)
-        if bad and ce and ce[-1] == "CLIENTERR 1":
-            return [F.Finding("wrong-flags-accepted", "an acknowledgement with reserved flag bits set is accepted without a protocol error")]
-        return []
+        fs, _ = self.judge_last(self.driver_build(), ops)
+        return fs
 
     def nontrivial_key(self, case, groups):
         raw = case.meta.get("raw_impl") or []
